@@ -717,6 +717,7 @@ pub fn regression_files(id: &str, sub: &str) -> Vec<PathBuf> {
 thread_local! {
     static LAST_PANIC: std::cell::RefCell<Option<(String, String)>> = const { std::cell::RefCell::new(None) };
 }
+static LAST_PANIC_ANY_THREAD: Mutex<Option<(String, String)>> = Mutex::new(None);
 static HOOK_SET: AtomicBool = AtomicBool::new(false);
 pub static QUIET_PANICS: AtomicBool = AtomicBool::new(true);
 
@@ -738,6 +739,9 @@ pub fn install_panic_hook() {
             "<non-string panic>".into()
         };
         LAST_PANIC.with(|p| *p.borrow_mut() = Some((loc.clone(), msg.clone())));
+        if let Ok(mut g) = LAST_PANIC_ANY_THREAD.lock() {
+            *g = Some((loc.clone(), msg.clone()));
+        }
         if !QUIET_PANICS.load(Ordering::Relaxed) {
             default(info);
         }
@@ -746,6 +750,11 @@ pub fn install_panic_hook() {
 
 pub fn take_last_panic() -> Option<(String, String)> {
     LAST_PANIC.with(|p| p.borrow_mut().take())
+}
+
+/// the last panic of any thread of this process (a lab worker thread that died is joined from another thread)
+pub fn take_last_panic_any_thread() -> Option<(String, String)> {
+    LAST_PANIC_ANY_THREAD.lock().ok().and_then(|mut g| g.take())
 }
 
 /// Is the panic location inside the code under test (sozu / its deps) rather than the harness?
